@@ -311,8 +311,9 @@ def parse_items(toks, src, lo, hi, parent=None):
                         # a brace group inside a contract (`x matches P { .. } ==> ...`) is followed by an operator
                         # or a clause keyword; the body is followed by the next item / a closing brace
                         nx = _skip_insig(toks, tt.match + 1, hi)
-                        if nx < hi and ((toks[nx].kind == 'punct' and toks[nx].text in '=&|,<>+-*/!?.') or
-                                        (toks[nx].kind == 'ident' and toks[nx].text in ('ensures', 'requires', 'decreases', 'recommends', 'returns', 'is', 'matches', 'as', 'opens_invariants', 'no_unwind'))):
+                        # (`match x { .. }` / `if c { .. } else { .. }` as the LAST clause is followed directly by the body `{`)
+                        if nx < hi and ((toks[nx].kind == 'punct' and toks[nx].text in '=&|,<>+-*/!?.{') or
+                                        (toks[nx].kind == 'ident' and toks[nx].text in ('ensures', 'requires', 'decreases', 'recommends', 'returns', 'is', 'matches', 'as', 'opens_invariants', 'no_unwind', 'else'))):
                             m = tt.match + 1
                             continue
                     it.open = m
